@@ -301,10 +301,42 @@ def standin(tier, seed):
             fail("signed cookie does not read back", headers=sc)
         if d["gone"][0] != "" or d["gone"][1].get("path") != "/g" or d["gone"][1].get("domain") != "d.example" or "expires" not in d["gone"][1]:
             fail("clear_cookie did not emit an expired empty cookie with the given path and domain: %r" % (d["gone"],), headers=sc)
+    # however the response ends: a cookie whose set_cookie call returned is on "the response" - also when that response is an error page, a redirect or was started by flush()
+    for ending in ("finish", "raise-HTTPError-403", "send_error-401", "uncaught-exception", "redirect", "flush-then-more", "set_status-404"):
+        class Ends(W.RequestHandler):
+            def get(self):
+                self.set_cookie("kept", "v1", path="/k")
+                self.set_signed_cookie("s", "sv")
+                self.clear_cookie("gone")
+                if ending == "raise-HTTPError-403":
+                    raise W.HTTPError(403)
+                if ending == "send_error-401":
+                    return self.send_error(401)
+                if ending == "uncaught-exception":
+                    raise RuntimeError("application error")
+                if ending == "redirect":
+                    return self.redirect("/elsewhere")
+                if ending == "flush-then-more":
+                    self.write("a")
+                    self.flush()
+                    self.write("b")
+                    return
+                if ending == "set_status-404":
+                    self.set_status(404)
+                self.write("ok")
+        evals += 1
+        res = S.run_server([b"GET / HTTP/1.1\r\nHost: h\r\n\r\n"], make_app=lambda r: W.Application([(r"/", Ends)], cookie_secret="sekrit"), eof=False)
+        head = bytes(res.sent).partition(b"\r\n\r\n")[0]
+        sc = [l.split(b":", 1)[1].strip().decode("latin1") for l in head.split(b"\r\n")[1:] if l.lower().startswith(b"set-cookie:")]
+        names = sorted(list(parse_set_cookie(x)[0])[0] for x in sc if parse_set_cookie(x)[0])
+        nontriv.add(("ending", ending))
+        if names != ["gone", "kept", "s"]:
+            fail("the response that ends with %s (status line %r) carries the cookies %r; kept, s and gone were set by calls that returned" % (ending, head.split(b"\r\n")[:1], names), ending=ending, headers=sc)
     samples.append({"set_cookie": "('n', 'a b;c')", "wire": "n=\"a b\\073c\"; Path=/", "read back": "{'n': 'a b;c'}"})
     return {"evaluations": evals, "distinct_nontrivial": len(nontriv), "failures": failures[:3], "samples": samples,
             "rule": "real Application + server: %d (name, value, attributes) combinations from %d names (tokens, spaces, '=', ';', empty, non-ASCII, NUL, quotes) x %d values (quotes, backslashes, commas, "
                     "semicolons, controls, CR LF, non-latin-1, bytes, 300 characters) x %d attribute sets (all attributes, hostile attribute texts, unknown attributes): the call raised and no Set-Cookie "
                     "is on the wire, or the response is complete with exactly one Set-Cookie whose name/value reads back through httputil.parse_cookie and whose attributes are exactly those requested; "
-                    "plus same-name-twice, several names, set_signed_cookie, clear_cookie" % (len(combos), len(NAMES), len(VALUES), len(ATTRS)),
+                    "plus same-name-twice, several names, set_signed_cookie, clear_cookie; plus 7 ways the response ends after the cookies were set (finish, HTTPError, send_error, "
+                    "uncaught exception, redirect, flush first, set_status)" % (len(combos), len(NAMES), len(VALUES), len(ATTRS)),
             "wall_s": round(time.time() - t0, 2)}
